@@ -114,6 +114,48 @@ func (m *Model) RunLiteral(s *Sink, rule string) {
 			s.OK(rule, key, m.Pos(sw.Pos()), "case evaluation for all 256 byte values: exactly the four whitespace bytes are read over")
 		}
 	}
+	// (d) an identifier is made of letters, digits and underscores: the identifier reader is evaluated on real lexer
+	// states for `a<byte>b ` with every byte value — it reads `a<byte>b` for the 63 identifier bytes and `a` otherwise
+	// (a hyphen taken into the name turns `a-b` into one unknown identifier: blanks would change the result)
+	if ri := m.Method("lexer", "Lexer", "readIdentifier"); ri != nil && len(ri.Params) == 1 {
+		var wrong []string
+		undecided := ""
+		for bv := 1; bv < 256 && undecided == ""; bv++ {
+			in := "a" + string([]byte{byte(bv)}) + "b "
+			lx, ok := m.lexerAt(in, 0)
+			if !ok {
+				undecided = "lexer.New could not be evaluated"
+				break
+			}
+			ip := &Interp{m: m, useGlobals: true}
+			res, okR := ip.Run(ri, []any{lx})
+			rc, isC := res.(constant.Value)
+			if !okR || !isC || rc.Kind() != constant.String || ip.stuck != "" {
+				undecided = fmt.Sprintf("byte %q: %s", rune(bv), ip.stuck)
+				break
+			}
+			isIdent := bv == '_' || (bv >= '0' && bv <= '9') || (bv >= 'a' && bv <= 'z') || (bv >= 'A' && bv <= 'Z')
+			want := "a"
+			if isIdent {
+				want = in[:3]
+			}
+			if constant.StringVal(rc) != want {
+				wrong = append(wrong, fmt.Sprintf("%q", rune(bv)))
+			}
+		}
+		key := fnKey(ri) + "|an identifier consists of letters, digits and underscores only"
+		switch {
+		case undecided != "":
+			s.Undecided(rule, key, m.Pos(ri.Pos()), "readIdentifier could not be evaluated (%s)", undecided)
+		case len(wrong) > 0:
+			if len(wrong) > 8 {
+				wrong = append(wrong[:8], "...")
+			}
+			s.Violation(rule, key, m.Pos(ri.Pos()), "readIdentifier treats the byte(s) %v between two letters differently from the identifier alphabet [A-Za-z0-9_]: `a-b` or `a.b` written without blanks is read as one name (or a name is cut short), so blanks change the value of an expression", wrong)
+		default:
+			s.OK(rule, key, m.Pos(ri.Pos()), "case evaluation on real lexer states for all 255 non-zero byte values between two letters")
+		}
+	}
 	// (b) the number reader
 	rn := m.Method("lexer", "Lexer", "readNumber")
 	if rn == nil {
